@@ -11,6 +11,7 @@ COMMON_TRUSTED = [
 
 # (file under coq/Gen, acra-vh arguments that print it): regenerated from /repo on every run
 GENERATORS = [
+    ("AuditLogCanon.v", ["auditlogcanon"]),
     ("ParsersConsts.v", ["x14parconsts"]),
     ("MysqlSessionConsts.v", ["x05myconsts"]),
     ("SqlWords.v", ["sqlwords"]),
@@ -176,7 +177,8 @@ PROPS = {
             "JSON decoder configuration of writer side and verifier side (AL_JSON_WRITER_USENUMBER / AL_JSON_VERIFIER_USENUMBER) and json.Marshal's ASCII table are regenerated on every run by RUNNING JSONFormatterHook.PostFormat / JSONLogParser.ParseEntry / json.Marshal (go/ast result recorded as a comment); C20_json_same_decoder is proved from them by reflexivity",
             "strconv's shortest-round-trip guarantee is NOT assumed: the side condition of C20_honest_json_verifies checks parse(print(parse(lit))) = parse(lit) for every number literal of the history with the model's exact printer/parser (w_ok), evaluated on every replayed history (op JWf) and probed on float tables / random bits (op FloatProbe)",
             "bytes the hooks truncate (1 for plaintext, 2 for CEF) are literals inside acra functions, copied into Model/AuditLog.v (TRUNC_TEXT/TRUNC_CEF); a change is caught by the byte-exact writer replay",
-            "time stamps of the service entries written by ResetChain/FinalizeChain are wall-clock: case files differ between runs in those bytes only (verdicts and scenario generation are seed-deterministic)"
+            "time stamps of the service entries written by ResetChain/FinalizeChain are wall-clock: case files differ between runs in those bytes only (verdicts and scenario generation are seed-deterministic)",
+            "layout of the canonical byte string of the JSON path (Gen/AuditLogCanon.v: AL_JSON_CANON_PRE/MID/POST, AL_JSON_CANON_STRING_QUOTED) is regenerated on every run by RUNNING JSONLogParser.ParseEntry on a marker entry (go/ast shape of getBytes recorded as a comment); C20_json_canonical_layout_as_modelled is proved from it by reflexivity; the semantic-edit oracle (c20jsem.go) builds its split / merge / boundary edits from the same probe and classifies an accepted edit as the recorded finding json-delimiter-ambiguity iff the two field maps coincide under the reference form (names between the probed tokens, every value as json.Marshal prints it)"
         ],
         "assumptions": [
             "no assumption on SHA-256 / HMAC: tamper theorems conclude `detected \\/ explicit SHA-256 collision (\\/ explicit SHA-256 fixed point where the number of entries changes)`",
